@@ -115,15 +115,15 @@ func (f *Filter) Filter(query *linear.Seq, selfAlign, complement bool, morass *m
 		return err
 	}
 
-	diagFrom := f.diagIndex(f.target.Len()-1, query.Len()-1) - tubeWidth
-	diagTo := f.diagIndex(0, query.Len()-1) + tubeWidth
-
-	tubeFrom := f.tubeIndex(diagFrom)
+	// At most cap(f.tubes) consecutive tubes are live, the highest being the tube of the
+	// last k-mer of the query against the start of the target. Flush each of them once,
+	// under its own index: a wider range visits a slot of the circular list under the
+	// index of an already retired tube first and reports its hit on the wrong diagonal.
+	tubeTo := f.tubeIndex(f.diagIndex(0, query.Len()-f.k))
+	tubeFrom := tubeTo - cap(f.tubes) + 1
 	if tubeFrom < 0 {
 		tubeFrom = 0
 	}
-
-	tubeTo := f.tubeIndex(diagTo)
 
 	for tubeIndex := tubeFrom; tubeIndex <= tubeTo; tubeIndex++ {
 		err = f.tubeFlush(tubeIndex)
